@@ -271,7 +271,34 @@ def emit_streamforms(w, src, must):
     w("")
 
 
-SECTIONS = [("codes", emit_codes), ("timers", emit_timers), ("guards", emit_guards), ("stun", emit_stun), ("sdp", emit_sdp), ("sip", emit_sip), ("auth", emit_auth), ("ua", emit_ua), ("tsxforms", emit_tsxforms), ("streamforms", emit_streamforms)]
+def emit_cancelforms(w, src, must):
+    """how the invite layer finds the INVITE a CANCEL refers to (C12)"""
+    t = src("crates/sip-ua/src/invite/mod.rs")
+    m = re.search(r"fn handle_cancel\b", t)
+    body = t[m.start():] if m else ""
+    body = body[:body.index("\n    }\n")] if "\n    }\n" in body else body
+    w("(* InviteLayer::handle_cancel looks the pending INVITE up under the CANCEL's transaction-key branch (TsxKey::branch), the form")
+    w("   Acceptor::new registers it under *)")
+    flag(w, "cancel_lookup_by_tsx_branch", bool(re.search(r"tsx_key\s*\.branch\(\)", body)) and 'get_val("branch")' not in body,
+         'get_val("branch")' in body, "the branch InviteLayer::handle_cancel looks the pending INVITE up with")
+    w("")
+
+
+def emit_stunforms(w, src, must):
+    """how StunEndpoint::send_request cleans its pending-table entry up (C20 / C16)"""
+    t = src("crates/stun/src/lib.rs")
+    m = re.search(r"async fn send_request\b", t)
+    body = t[m.start():] if m else ""
+    nxt = re.search(r"\n    (pub )?(async )?fn ", body[10:])
+    body = body[:nxt.start() + 10] if nxt else body
+    guard = bool(re.search(r"impl<[^>]*>\s*Drop\s+for\s+\w+", body)) and bool(re.search(r"let _\w* = \w+\(", body))
+    explicit = (not guard) and bool(re.search(r"transactions\s*\.lock\(\)\s*\.remove\(|\.forget\(", body))
+    w("(* StunEndpoint::send_request removes its entry of the pending table through a scope guard (every way the call can end) *)")
+    flag(w, "stun_cleanup_by_guard", guard, explicit, "clean-up of the pending-table entry in StunEndpoint::send_request")
+    w("")
+
+
+SECTIONS = [("codes", emit_codes), ("timers", emit_timers), ("guards", emit_guards), ("stun", emit_stun), ("sdp", emit_sdp), ("sip", emit_sip), ("auth", emit_auth), ("ua", emit_ua), ("tsxforms", emit_tsxforms), ("streamforms", emit_streamforms), ("cancelforms", emit_cancelforms), ("stunforms", emit_stunforms)]
 
 # which properties' models read which section of Gen/Tables.v
 SECTION_USERS = {
@@ -286,4 +313,6 @@ SECTION_USERS = {
     "ua": ["C13"],
     "tsxforms": ["C04", "C07"],
     "streamforms": ["C15"],
+    "cancelforms": ["C12"],
+    "stunforms": ["C20", "C16"],
 }
